@@ -36,6 +36,9 @@ var nvPresets = [][]int{
 	{0, 2, 8, 0, 0, 0}, // several proofs among the votes, proposal = block of the lowest one
 	{3, 0, 8, 0, 0, 0},
 	{0, 1, 8, 0, 0, 0},
+	{0, 0, 0, 4, 0, 0}, // embedded proposal in the leader's name with a signature that is not the leader's
+	{0, 1, 9, 4, 0, 7},
+	{3, 0, 1, 4, 1, 0},
 }
 
 // drawByz draws one adversarial injection against the live world (nil if the adversary owns no key).
@@ -100,14 +103,14 @@ func drawByz(t *rapid.T, w *sim.World, o simOpts) *sim.ByzSpec {
 	}
 	if strat == "replay" {
 		p[0] = rapid.IntRange(0, 1<<20).Draw(t, "seenidx")
-		p[1] = rapid.IntRange(0, 2).Draw(t, "rmode")
+		p[1] = rapid.IntRange(0, 3).Draw(t, "rmode")
 	}
 	if strat == "nv" || strat == "vc" {
 		p[0] = rapid.IntRange(0, 4).Draw(t, "mode0")
 		p[1] = rapid.IntRange(0, 5).Draw(t, "mode1")
 		if strat == "nv" {
 			p[2] = rapid.SampledFrom([]int{0, 0, 1, 2, 3, 4, 5, 8, 9, 9, 9}).Draw(t, "proposal")
-			p[3] = rapid.SampledFrom([]int{0, 0, 0, 0, 1, 2, 3}).Draw(t, "ppmode")
+			p[3] = rapid.SampledFrom([]int{0, 0, 0, 0, 1, 2, 3, 4}).Draw(t, "ppmode")
 			p[4] = rapid.SampledFrom([]int{0, 0, 0, 1}).Draw(t, "dropproofs")
 		}
 	}
